@@ -324,7 +324,7 @@ func runGateImpl(g gateCfg, h []ev, rec *[]recCall) ([]bool, *built) {
 	defer func() {
 		zerolog.TimestampFunc = time.Now
 		zerolog.SetGlobalLevel(zerolog.TraceLevel)
-		zerolog.DisableSampling(false)
+		resetSwitch(g)
 	}()
 	w := &countWriter{}
 	var l zerolog.Logger
@@ -660,7 +660,15 @@ func c13monitor(c *Ctx, g gateCfg, h []ev, got []bool) {
 	}
 	zerolog.TimestampFunc = time.Now
 	zerolog.SetGlobalLevel(zerolog.TraceLevel)
-	zerolog.DisableSampling(false)
+	resetSwitch(g)
+}
+
+// resetSwitch: back to "sampling enabled" for the next case - one false per call made, so that a case which
+// exposed a defective switch does not leak its state into the cases after it.
+func resetSwitch(g gateCfg) {
+	for i := 0; i <= len(g.Switch)+2; i++ {
+		zerolog.DisableSampling(false)
+	}
 }
 
 func countNodes(c *SCfg) int {
@@ -922,6 +930,7 @@ func runC13(c *Ctx) {
 		}
 	}
 	c.Res.ExtraCoverage["concurrent_runs"] = conc
+	concurrentThroughLoggers(c) // concurrent_more.go: the same share seen from the destination of a family of loggers
 
 	// 4. K5 directed replay on the real code
 	{
